@@ -162,6 +162,86 @@ func RuleDRecursion(c *core.Ctx) {
 	c.Floor(rule, 1)
 }
 
+// RuleDLoaderReject — the recursive loader refuses a file only because it
+// cannot be read or parsed, or because it closes an include cycle: every error
+// value that a function of the loader constructs itself (rather than passes
+// on) is returned under the ancestor test — a condition that reads the chain
+// of ancestors. Any other constructed error makes the acceptance of a journal
+// depend on its layout in files.
+func RuleDLoaderReject(c *core.Ctx) {
+	const rule = "D-loader-reject"
+	p := c.P
+	li := loaderCycle(c)
+	if len(li.readers) == 0 {
+		c.Ob(rule, "module:no recursive file loader", 0, "", core.Discharged, "no recursive loader")
+		c.Floor(rule, 1)
+		return
+	}
+	n := 0
+	for _, fn := range li.list {
+		for _, b := range fn.Blocks {
+			ret, ok := b.Instrs[len(b.Instrs)-1].(*ssa.Return)
+			if !ok {
+				continue
+			}
+			for _, rv := range ret.Results {
+				if !core.IsErrorType(rv.Type()) {
+					continue
+				}
+				constructed := false
+				for prod := range errProducers(rv, map[ssa.Value]bool{}) {
+					switch x := prod.(type) {
+					case *ssa.MakeInterface:
+						constructed = true
+					case *ssa.Call:
+						if callee := x.Call.StaticCallee(); callee != nil && callee.Pkg != nil && (callee.Pkg.Pkg.Path() == "fmt" || callee.Pkg.Pkg.Path() == "errors") {
+							constructed = true
+						}
+					}
+				}
+				if !constructed {
+					continue
+				}
+				n++
+				key := fmt.Sprintf("%s:constructed error %d is the include-cycle error", core.FuncName(fn), successReturnIndex(fn, b))
+				underChain := false
+				for _, cb := range fn.Blocks {
+					iff, ok := cb.Instrs[len(cb.Instrs)-1].(*ssa.If)
+					if !ok || core.IsLoopExitTest(cb, b) {
+						continue
+					}
+					inside := false
+					for _, s := range cb.Succs {
+						if len(s.Preds) == 1 && s.Dominates(b) {
+							inside = true
+						}
+					}
+					if !inside {
+						continue
+					}
+					for v := range originSet(p, iff.Cond, 2) {
+						if prm := paramRoot(v); prm != nil && li.carries(p, prm, "chain", 0) {
+							underChain = true
+						}
+						if q, ok := v.(*ssa.Parameter); ok && li.carries(p, q, "chain", 0) {
+							underChain = true
+						}
+					}
+				}
+				if underChain {
+					c.Ob(rule, key, ret.Pos(), core.FuncName(fn), core.Discharged, "returned under a test of the chain of ancestors")
+				} else {
+					c.Ob(rule, key, ret.Pos(), core.FuncName(fn), core.Violated, "the loader builds and returns an error of its own that is not the include-cycle test: a journal is rejected for a reason that depends on how it is split into files")
+				}
+			}
+		}
+	}
+	if n == 0 {
+		c.Ob(rule, "recursive loader:constructed errors", 0, "", core.Violated, "the loader constructs no error: the include-cycle test is gone")
+	}
+	c.Floor(rule, 1)
+}
+
 func dependsOnCycleCall(co map[ssa.Value]bool, li *loaderInfo) bool {
 	for v := range co {
 		if c, ok := v.(*ssa.Call); ok && li.cycle[c.Call.StaticCallee()] {
